@@ -364,4 +364,391 @@ Section R.
     - eexists. reflexivity.
   Qed.
 
-(*TMP*) End R.
+  (** *** the partial formulas are linear in the multiplier, and succeed inside the domain *)
+
+  Lemma ok_unary_linear p e : is_unary e = true -> ok p e ->
+    exists k, forall m, unary_formula RInst p e m = Val (m * k).
+  Proof.
+    intros Hu Hok.
+    pose proof (ok_eval p _ (ok_inner p e Hu Hok)) as Hin.
+    pose proof (ok_eval p e Hok) as Hself.
+    destruct Hok as [Hw [Hs Hd]].
+    destruct e; try discriminate Hu; cbn [inner_of] in Hin; cbn [denote] in Hself;
+      cbn [InDomain] in Hd; cbn [wf] in Hw.
+    - (* Neg *)
+      exists (-1). intro m. cbn [unary_formula]. rewrite RV_mf_negation. f_equal. ring.
+    - (* Recip *)
+      destruct Hd as [_ Hnz]. set (x := denote (env_of p) e) in *.
+      exists (- / (x ^ Pos.to_nat 2)). intro m. cbn [unary_formula].
+      rewrite Hin. cbn [bind]. rewrite RV_mf_nth_power. cbn [bind].
+      rewrite RV_mf_divide by (apply pow_nonzero; exact Hnz). cbn [bind].
+      rewrite RV_mf_negation. f_equal. unfold Rdiv. ring.
+    - (* Sin *)
+      set (x := denote (env_of p) e) in *.
+      exists (cos x). intro m. cbn [unary_formula].
+      rewrite Hin. cbn [bind]. rewrite RV_mf_cosine. cbn [bind].
+      rewrite RV_mf_multiply. cbn [fold_right]. f_equal. ring.
+    - (* Cos *)
+      set (x := denote (env_of p) e) in *.
+      exists (- sin x). intro m. cbn [unary_formula].
+      rewrite Hin. cbn [bind]. rewrite RV_mf_sine. cbn [bind].
+      rewrite RV_mf_multiply, RV_mf_negation. cbn [fold_right]. f_equal. ring.
+    - (* NthPow *)
+      set (x := denote (env_of p) e) in *.
+      destruct (Pos.eq_dec n 1) as [->|Hn].
+      + exists 1. intro m. cbn [unary_formula]. f_equal. ring.
+      + exists (IZR (Z.pos n) * x ^ Pos.to_nat (Pos.pred n)). intro m. cbn [unary_formula].
+        rewrite RV_match_pos_not1 by exact Hn.
+        rewrite Hin. cbn [bind]. rewrite RV_mf_nth_power. cbn [bind].
+        rewrite RV_mf_multiply. cbn [fold_right]. f_equal.
+        change (nofZ RInst (Z.pos n)) with (IZR (Z.pos n)). ring.
+    - (* NthRoot *)
+      set (x := denote (env_of p) e) in *.
+      destruct (Pos.eq_dec n 1) as [->|Hn].
+      + exists 1. intro m. cbn [unary_formula]. f_equal. ring.
+      + destruct Hd as [_ [Hn1|[Hnz _]]]; [contradiction|].
+        set (sv := root n x) in *.
+        assert (Hsv : sv <> 0) by (apply RV_root_nz; exact Hnz).
+        exists (/ (IZR (Z.pos n) * (sv ^ Pos.to_nat (Pos.pred n) * 1))). intro m.
+        cbn [unary_formula]. rewrite RV_match_pos_not1 by exact Hn.
+        rewrite Hself. cbn [bind]. rewrite RV_mf_nth_power. cbn [bind].
+        rewrite RV_mf_multiply. cbn [fold_right].
+        change (nofZ RInst (Z.pos n)) with (IZR (Z.pos n)).
+        rewrite RV_mf_divide.
+        * reflexivity.
+        * apply Rmult_integral_contrapositive_currified; [apply IZR_neq; discriminate|].
+          apply Rmult_integral_contrapositive_currified; [|lra].
+          apply pow_nonzero. exact Hsv.
+    - (* Exp *)
+      destruct Hw as [Hb _]. apply Rltb_true in Hb. change (n0 RInst) with 0 in Hb.
+      set (x := denote (env_of p) e) in *.
+      destruct (Reqb base 1) eqn:E1.
+      + exists 0. intro m. cbn [unary_formula].
+        change (neqb RInst base (n1 RInst)) with (Reqb base 1). rewrite E1.
+        change (n0 RInst) with 0. f_equal. ring.
+      + destruct (Reqb base (exp 1)) eqn:E2.
+        * exists (Rpower base x). intro m. cbn [unary_formula].
+          change (neqb RInst base (n1 RInst)) with (Reqb base 1). rewrite E1.
+          rewrite Hself. cbn [bind].
+          change (neqb RInst base (n_e RInst)) with (Reqb base (exp 1)). rewrite E2.
+          rewrite RV_mf_multiply. cbn [fold_right]. f_equal. ring.
+        * exists (ln base * Rpower base x). intro m. cbn [unary_formula].
+          change (neqb RInst base (n1 RInst)) with (Reqb base 1). rewrite E1.
+          rewrite Hself. cbn [bind].
+          change (neqb RInst base (n_e RInst)) with (Reqb base (exp 1)). rewrite E2.
+          rewrite RV_mf_logarithm_e by exact Hb. cbn [bind].
+          rewrite RV_mf_multiply. cbn [fold_right]. f_equal. ring.
+    - (* Log *)
+      destruct Hw as [Hb [Hb1 _]]. apply Rltb_true in Hb. change (n0 RInst) with 0 in Hb.
+      apply Reqb_false in Hb1. change (n1 RInst) with 1 in Hb1.
+      destruct Hd as [_ Hpos].
+      set (x := denote (env_of p) e) in *.
+      destruct (Reqb base (exp 1)) eqn:E2.
+      + exists (/ x). intro m. cbn [unary_formula]. rewrite Hin. cbn [bind].
+        change (neqb RInst base (n_e RInst)) with (Reqb base (exp 1)). rewrite E2.
+        rewrite RV_mf_divide by lra. reflexivity.
+      + exists (/ (ln base * (x * 1))). intro m. cbn [unary_formula]. rewrite Hin. cbn [bind].
+        change (neqb RInst base (n_e RInst)) with (Reqb base (exp 1)). rewrite E2.
+        rewrite RV_mf_logarithm_e by exact Hb. cbn [bind].
+        rewrite RV_mf_multiply. cbn [fold_right].
+        rewrite RV_mf_divide.
+        * reflexivity.
+        * apply Rmult_integral_contrapositive_currified;
+            [apply RV_ln_neq0; assumption | lra].
+  Qed.
+
+  Lemma ok_divide_left p a b : ok p (Divide a b) ->
+    exists k, forall m, divide_formula_left RInst p a b m = Val (m * k).
+  Proof.
+    intro Hok. destruct (ok_Divide p a b Hok) as [Ha [Hb Hnz]].
+    exists (/ denote (env_of p) b). intro m. unfold divide_formula_left.
+    rewrite (ok_eval p b Hb). cbn [bind]. rewrite RV_mf_divide by exact Hnz. reflexivity.
+  Qed.
+
+  Lemma ok_divide_right p a b : ok p (Divide a b) ->
+    exists k, forall m, divide_formula_right RInst p a b m = Val (m * k).
+  Proof.
+    intro Hok. destruct (ok_Divide p a b Hok) as [Ha [Hb Hnz]].
+    set (lv := denote (env_of p) a). set (rv := denote (env_of p) b) in *.
+    exists (- (lv / rv ^ Pos.to_nat 2)). intro m. unfold divide_formula_right.
+    rewrite (ok_eval p a Ha), (ok_eval p b Hb). cbn [bind].
+    rewrite RV_mf_nth_power. cbn [bind].
+    rewrite RV_mf_divide by (apply pow_nonzero; exact Hnz). cbn [bind].
+    rewrite RV_mf_multiply, RV_mf_negation. cbn [fold_right]. fold lv rv. f_equal. ring.
+  Qed.
+
+  Lemma ok_power_left p a b : ok p (Power a b) ->
+    exists k, forall m, power_formula_left RInst p a b m = Val (m * k).
+  Proof.
+    intro Hok. destruct (ok_Power p a b Hok) as [Ha [Hb Hpos]].
+    set (lv := denote (env_of p) a) in *. set (rv := denote (env_of p) b).
+    exists (rv * Rpower lv (mf_minus RInst rv (n1 RInst))). intro m. unfold power_formula_left.
+    rewrite (ok_eval p a Ha), (ok_eval p b Hb). cbn [bind].
+    rewrite RV_mf_power by exact Hpos. cbn [bind].
+    rewrite RV_mf_multiply. cbn [fold_right]. fold lv rv. f_equal. ring.
+  Qed.
+
+  Lemma ok_power_right p a b : ok p (Power a b) ->
+    exists k, forall m, power_formula_right RInst p a b m = Val (m * k).
+  Proof.
+    intro Hok. destruct (ok_Power p a b Hok) as [Ha [Hb Hpos]].
+    set (lv := denote (env_of p) a) in *. set (rv := denote (env_of p) b).
+    exists (ln lv * Rpower lv rv). intro m. unfold power_formula_right.
+    rewrite (ok_eval p a Ha), (ok_eval p _ Hok). cbn [bind denote].
+    rewrite RV_mf_logarithm_e by exact Hpos. cbn [bind].
+    rewrite RV_mf_multiply. cbn [fold_right]. fold lv rv. f_equal. ring.
+  Qed.
+
+  (** *** the strengthened induction statement
+      (the third conjunct gives [rev_sound] for names outside the enumeration) *)
+
+  Definition Pst (p : point R) (e : expr R) : Prop :=
+    ok p e -> forall m acc,
+    exists acc', rev RInst p e m acc = Val acc' /\
+      forall v, exists d, fwdR v p e = Val d /\
+        acc_get RInst acc' v = acc_get RInst acc v + m * d /\
+        (~ In v (vars e) -> d = 0).
+
+  (** n-ary sum: the accumulator is threaded through the operands *)
+  Lemma add_case p m : forall l, Forall (Pst p) l -> Forall (ok p) l -> forall acc,
+    exists acc', rev RInst p (Add l) m acc = Val acc' /\
+      forall v, exists ds, sequence (map (fwdR v p) l) = Val ds /\
+        acc_get RInst acc' v = acc_get RInst acc v + m * fold_right Rplus 0 ds /\
+        (~ In v (flat_map vars l) -> fold_right Rplus 0 ds = 0).
+  Proof.
+    induction l as [|x r IH]; intros HP Hok acc.
+    - exists acc. split; [reflexivity|]. intro v. exists []. cbn [map sequence fold_right].
+      split; [reflexivity|]. split; [ring|reflexivity].
+    - inversion HP as [|x' r' HPx HPr]; subst. inversion Hok as [|x' r' Hx Hr]; subst.
+      rewrite RV_rev_Add_cons. destruct (HPx Hx m acc) as [acc1 [E1 H1]]. rewrite E1. cbn [bind].
+      destruct (IH HPr Hr acc1) as [acc2 [E2 H2]]. exists acc2. split; [exact E2|]. intro v.
+      destruct (H1 v) as [d [Ed [Ha Hz]]]. destruct (H2 v) as [ds [Eds [Has Hzs]]].
+      exists (d :: ds). cbn [map sequence]. rewrite Ed, Eds. cbn [bind fold_right].
+      split; [reflexivity|]. split.
+      + rewrite Has, Ha. ring.
+      + intro Hn. cbn [flat_map] in Hn. rewrite Hz, Hzs.
+        * ring.
+        * intro H. apply Hn. apply in_or_app. right. exact H.
+        * intro H. apply Hn. apply in_or_app. left. exact H.
+  Qed.
+
+  (** n-ary product: operand i receives  m * prod_{j<>i} v_j ; the list [vs] of operand values
+      is arbitrary here, only the index offset matters *)
+  Lemma mul_case p m (vs : list R) : forall l, Forall (Pst p) l -> Forall (ok p) l ->
+    forall i acc,
+    exists acc',
+      (fix go (i : nat) (l : list (expr R)) (acc : accum) {struct l} : outcome accum :=
+         match l with
+         | [] => Val acc
+         | x :: r =>
+             acc' <- rev RInst p x (mf_multiply RInst (m :: remove_nth i vs)) acc ;;
+             go (S i) r acc'
+         end) i l acc = Val acc' /\
+      forall v, exists ds, sequence (map (fwdR v p) l) = Val ds /\
+        acc_get RInst acc' v = acc_get RInst acc v +
+          m * fold_right Rplus 0
+                (mapi_from i (fun i d => mf_multiply RInst (d :: remove_nth i vs)) ds) /\
+        (~ In v (flat_map vars l) ->
+         fold_right Rplus 0
+           (mapi_from i (fun i d => mf_multiply RInst (d :: remove_nth i vs)) ds) = 0).
+  Proof.
+    induction l as [|x r IH]; intros HP Hok i acc.
+    - exists acc. split; [reflexivity|]. intro v. exists [].
+      cbn [map sequence mapi_from fold_right].
+      split; [reflexivity|]. split; [ring|reflexivity].
+    - inversion HP as [|x' r' HPx HPr]; subst. inversion Hok as [|x' r' Hx Hr]; subst.
+      destruct (HPx Hx (mf_multiply RInst (m :: remove_nth i vs)) acc) as [acc1 [E1 H1]].
+      rewrite E1. cbn [bind].
+      destruct (IH HPr Hr (S i) acc1) as [acc2 [E2 H2]]. exists acc2. split; [exact E2|].
+      intro v.
+      destruct (H1 v) as [d [Ed [Ha Hz]]]. destruct (H2 v) as [ds [Eds [Has Hzs]]].
+      exists (d :: ds). cbn [map sequence]. rewrite Ed, Eds. cbn [bind mapi_from fold_right].
+      split; [reflexivity|].
+      rewrite RV_mf_multiply in Ha. rewrite RV_mf_multiply. cbn [fold_right] in Ha |- *.
+      split.
+      + rewrite Has, Ha. ring.
+      + intro Hn. cbn [flat_map] in Hn. rewrite Hz, Hzs.
+        * ring.
+        * intro H. apply Hn. apply in_or_app. right. exact H.
+        * intro H. apply Hn. apply in_or_app. left. exact H.
+  Qed.
+
+  Lemma unary_case p e : is_unary e = true -> Pst p (inner_of e) -> Pst p e.
+  Proof.
+    intros Hu IH Hok m acc.
+    pose proof (ok_inner p e Hu Hok) as Hi.
+    destruct (ok_unary_linear p e Hu Hok) as [k Hk].
+    rewrite (RV_rev_unary p e m acc Hu). rewrite (ok_eval p _ Hi). cbn [bind].
+    rewrite (ok_unary_verify p e Hu Hok). cbn [bind]. rewrite Hk. cbn [bind].
+    destruct (IH Hi (m * k) acc) as [acc' [E H]]. exists acc'. split; [exact E|]. intro v.
+    destruct (H v) as [d [Ed [Ha Hz]]]. exists (d * k).
+    rewrite (RV_fwd_unary v p e Hu). rewrite (ok_eval p _ Hi). cbn [bind].
+    rewrite (ok_unary_verify p e Hu Hok). cbn [bind]. rewrite Ed. cbn [bind]. rewrite Hk.
+    split; [reflexivity|]. split.
+    - rewrite Ha. ring.
+    - intro Hn. rewrite Hz; [ring|]. rewrite <- (RV_vars_unary e Hu). exact Hn.
+  Qed.
+
+  Lemma rev_acc_strong p : forall e, Pst p e.
+  Proof.
+    induction e as [c|x|l IHl|l IHl|a b IHa IHb|a b IHa IHb|a b IHa IHb
+                   |a IHa|a IHa|a IHa|a IHa|a n IHa|a n IHa|a base IHa|a base IHa]
+      using expr_ind';
+      try (apply unary_case; [reflexivity | exact IHa]).
+    - (* Const *)
+      intros _ m acc. exists acc. split; [reflexivity|]. intro v. exists 0.
+      split; [reflexivity|]. split; [ring|reflexivity].
+    - (* Var *)
+      intros _ m acc. exists (acc_add RInst acc x m). split; [reflexivity|]. intro v.
+      cbn [fwd vars]. rewrite RV_acc_get_add.
+      destruct (name_eqb x v) eqn:E.
+      + apply Pos.eqb_eq in E. subst v. exists 1. unfold name_eqb. rewrite Pos.eqb_refl.
+        split; [reflexivity|]. split; [ring|]. intro Hn. exfalso. apply Hn. left. reflexivity.
+      + exists 0. split; [reflexivity|].
+        assert (E' : name_eqb v x = false).
+        { unfold name_eqb in *. rewrite Pos.eqb_sym. exact E. }
+        rewrite E'. split; [ring|reflexivity].
+    - (* Add *)
+      intros Hok m acc.
+      destruct (add_case p m l IHl (ok_Add p l Hok) acc) as [acc' [E H]].
+      exists acc'. split; [exact E|]. intro v.
+      destruct (H v) as [ds [Eds [Ha Hz]]].
+      exists (fold_right Rplus 0 ds). rewrite RV_fwd_Add, Eds. cbn [bind].
+      rewrite RV_mf_add. split; [reflexivity|]. split; [exact Ha|exact Hz].
+    - (* Mul *)
+      intros Hok m acc. pose proof (ok_Mul p l Hok) as Hl.
+      set (vs := map (denote (env_of p)) l).
+      destruct (mul_case p m vs l IHl Hl O acc) as [acc' [E H]].
+      exists acc'. split.
+      + cbn [rev]. unfold eval_list. rewrite (ok_seq_eval p l Hl). cbn [bind]. exact E.
+      + intro v. destruct (H v) as [ds [Eds [Ha Hz]]].
+        rewrite RV_fwd_Mul. unfold eval_list. rewrite (ok_seq_eval p l Hl). cbn [bind].
+        rewrite Eds. cbn [bind]. rewrite RV_mf_add. unfold mapi. fold vs.
+        eexists. split; [reflexivity|]. split; [exact Ha|exact Hz].
+    - (* Minus *)
+      intros Hok m acc. destruct (ok_Minus p a b Hok) as [Ha Hb].
+      cbn [rev]. destruct (IHa Ha m acc) as [acc1 [E1 H1]]. rewrite E1. cbn [bind].
+      destruct (IHb Hb (mf_negation RInst m) acc1) as [acc2 [E2 H2]].
+      exists acc2. split; [exact E2|]. intro v.
+      destruct (H1 v) as [da [Eda [Ha1 Hz1]]]. destruct (H2 v) as [db [Edb [Ha2 Hz2]]].
+      exists (da - db). cbn [fwd]. rewrite Eda, Edb. cbn [bind].
+      split; [reflexivity|]. split.
+      + rewrite Ha2, Ha1, RV_mf_negation. ring.
+      + cbn [vars]. intro Hn. rewrite Hz1, Hz2.
+        * ring.
+        * intro Hin. apply Hn. apply in_or_app. right. exact Hin.
+        * intro Hin. apply Hn. apply in_or_app. left. exact Hin.
+    - (* Divide *)
+      intros Hok m acc. destruct (ok_Divide p a b Hok) as [Ha [Hb Hnz]].
+      destruct (ok_divide_left p a b Hok) as [kl Hkl].
+      destruct (ok_divide_right p a b Hok) as [kr Hkr].
+      rewrite RV_rev_Divide. rewrite (ok_eval p a Ha), (ok_eval p b Hb). cbn [bind].
+      rewrite (ok_verify_divide _ _ Hnz). cbn [bind]. rewrite Hkl, Hkr. cbn [bind].
+      destruct (IHa Ha (m * kl) acc) as [acc1 [E1 H1]]. rewrite E1. cbn [bind].
+      destruct (IHb Hb (m * kr) acc1) as [acc2 [E2 H2]].
+      exists acc2. split; [exact E2|]. intro v.
+      destruct (H1 v) as [da [Eda [Ha1 Hz1]]]. destruct (H2 v) as [db [Edb [Ha2 Hz2]]].
+      exists (da * kl + (db * kr + 0)).
+      rewrite RV_fwd_Divide. rewrite (ok_eval p a Ha), (ok_eval p b Hb). cbn [bind].
+      rewrite (ok_verify_divide _ _ Hnz). cbn [bind]. rewrite Eda, Edb. cbn [bind].
+      rewrite Hkl, Hkr. cbn [bind]. rewrite RV_mf_add. cbn [fold_right].
+      split; [reflexivity|]. split.
+      + rewrite Ha2, Ha1. ring.
+      + cbn [vars]. intro Hn. rewrite Hz1, Hz2.
+        * ring.
+        * intro Hin. apply Hn. apply in_or_app. right. exact Hin.
+        * intro Hin. apply Hn. apply in_or_app. left. exact Hin.
+    - (* Power *)
+      intros Hok m acc. destruct (ok_Power p a b Hok) as [Ha [Hb Hpos]].
+      destruct (ok_power_left p a b Hok) as [kl Hkl].
+      destruct (ok_power_right p a b Hok) as [kr Hkr].
+      destruct (ok_power_shortcut p a Ha) as [sc Hsc].
+      rewrite RV_rev_Power. rewrite (ok_eval p _ Hok). cbn [bind]. rewrite Hsc. cbn [bind].
+      destruct sc.
+      + (* base is the constant 1: nothing is propagated, forward returns 0 *)
+        exists acc. split; [reflexivity|]. intro v. exists 0.
+        rewrite RV_fwd_Power. rewrite (ok_eval p _ Hok). cbn [bind]. rewrite Hsc. cbn [bind].
+        split; [reflexivity|]. split; [ring|reflexivity].
+      + rewrite (ok_eval p a Ha), (ok_eval p b Hb). cbn [bind].
+        rewrite (ok_verify_power _ _ Hpos). cbn [bind]. rewrite Hkl, Hkr. cbn [bind].
+        destruct (IHa Ha (m * kl) acc) as [acc1 [E1 H1]]. rewrite E1. cbn [bind].
+        destruct (IHb Hb (m * kr) acc1) as [acc2 [E2 H2]].
+        exists acc2. split; [exact E2|]. intro v.
+        destruct (H1 v) as [da [Eda [Ha1 Hz1]]]. destruct (H2 v) as [db [Edb [Ha2 Hz2]]].
+        exists (da * kl + db * kr).
+        rewrite RV_fwd_Power. rewrite (ok_eval p _ Hok). cbn [bind]. rewrite Hsc. cbn [bind].
+        rewrite (ok_eval p a Ha), (ok_eval p b Hb). cbn [bind].
+        rewrite (ok_verify_power _ _ Hpos). cbn [bind]. rewrite Eda, Edb. cbn [bind].
+        rewrite Hkl, Hkr. cbn [bind].
+        split; [reflexivity|]. split.
+        * rewrite Ha2, Ha1. ring.
+        * cbn [vars]. intro Hn. rewrite Hz1, Hz2.
+          -- ring.
+          -- intro Hin. apply Hn. apply in_or_app. right. exact Hin.
+          -- intro Hin. apply Hn. apply in_or_app. left. exact Hin.
+  Qed.
+
+  (** ** The two statements of Spec.v *)
+
+  Theorem rev_acc : C04_rev_acc.
+  Proof.
+    intros p e m acc Hw Hs Hd.
+    destruct (rev_acc_strong p e (conj Hw (conj Hs Hd)) m acc) as [acc' [E H]].
+    exists acc'. split; [exact E|]. intro v. destruct (H v) as [d [Ed [Ha _]]].
+    exists d. split; assumption.
+  Qed.
+
+  Theorem rev_sound : C04_rev_sound.
+  Proof.
+    intros p e enum Hw Hs Hd Hc.
+    destruct (rev_acc_strong p e (conj Hw (conj Hs Hd)) 1 []) as [acc' [E H]].
+    exists (numeric_partials_for RInst acc' enum). split.
+    - unfold numeric_partials. change (n1 RInst) with 1. rewrite E. reflexivity.
+    - intro v. destruct (H v) as [d [Ed [Ha Hz]]]. exists d. split; [exact Ed|].
+      rewrite RV_acc_get_nil in Ha. unfold located_component, numeric_partials_for.
+      destruct (in_dec Pos.eq_dec v enum) as [Hin|Hnin].
+      + (* v is enumerated: the dictionary entry is the accumulated value *)
+        rewrite (RV_lookup_map_in (acc_get RInst acc') enum v Hin). rewrite Ha. ring.
+      + (* v is not enumerated, hence does not occur: .get(v, 0) = 0 = forward value *)
+        rewrite (RV_lookup_map_notin (acc_get RInst acc') enum v Hnin).
+        change (n0 RInst) with 0. symmetry. apply Hz.
+        intro Hv. apply Hnin. apply Hc. exact Hv.
+  Qed.
+
+End R.
+
+(** ** Non-vacuity: the premises hold on a tree with a repeated variable, an n-ary product,
+    a unary node and a quotient whose denominator is not identically non-zero; and on that
+    tree the conclusion, instantiated, really speaks about a successful reverse pass. *)
+Definition RV_ex_e : expr R :=
+  Divide (Mul [Var 1%positive; Sin (Var 2%positive); Var 1%positive])
+         (Add [Var 2%positive; Const 1]).
+Definition RV_ex_p : point R := [(1%positive, 2); (2%positive, 3)].
+
+Example rev_premises_satisfiable :
+  wfR RV_ex_e /\ supplies RV_ex_p RV_ex_e /\ InDomain (env_of RV_ex_p) RV_ex_e /\
+  covers [2%positive; 1%positive] RV_ex_e.
+Proof.
+  unfold RV_ex_e, RV_ex_p. split; [|split; [|split]].
+  - cbn. tauto.
+  - intros x Hx. cbn in Hx.
+    destruct Hx as [<-|[<-|[<-|[<-|[]]]]]; cbn; discriminate.
+  - cbn. unfold env_of. cbn. repeat split. lra.
+  - intros x Hx. cbn in Hx. cbn.
+    destruct Hx as [<-|[<-|[<-|[<-|[]]]]]; tauto.
+Qed.
+
+Example rev_acc_instance (Heval : C01_eval_sound) :
+  exists acc', rev RInst RV_ex_p RV_ex_e 1 [] = Val acc' /\
+    forall v, exists d, fwdR v RV_ex_p RV_ex_e = Val d /\ acc_get RInst acc' v = d.
+Proof.
+  destruct rev_premises_satisfiable as [Hw [Hs [Hd _]]].
+  destruct (rev_acc Heval RV_ex_p RV_ex_e 1 [] Hw Hs Hd) as [acc' [E H]].
+  exists acc'. split; [exact E|]. intro v. destruct (H v) as [d [Ed Ha]].
+  exists d. split; [exact Ed|]. rewrite Ha. rewrite RV_acc_get_nil. ring.
+Qed.
+
+Check (rev_acc : C01_eval_sound -> C04_rev_acc).
+Check (rev_sound : C01_eval_sound -> C04_rev_sound).
+Print Assumptions rev_acc.
+Print Assumptions rev_sound.
